@@ -2,4 +2,4 @@ From Coq Require Extraction ExtrOcamlBasic.
 From Common Require Import Words.
 From Str Require Import StrSpec StrModel.
 Extraction Language OCaml.
-Extraction "model.ml" anchor step exec abs winit spec_step sinit h_value cval live_blocks.
+Extraction "model.ml" anchor step exec abs winit spec_step sinit h_value cval live_blocks seen OTrimD OSubstrD OSplitD OSplitSetD.
